@@ -526,7 +526,7 @@ func (r *run) list(rc *regclient.RegClient, who string, si int, byTag bool, f Fi
 	} else {
 		v = r.compareList(who, si, f, rl.Descriptors)
 	}
-	if v != nil && rc == r.e.main {
+	if v != nil && rc == r.e.main && f.none() {
 		// the same question through a fresh client is asked after every step: a failure that only the
 		// client under test shows is a property of its state (cache, feature detection)
 		if r.c.Sys.Cache {
